@@ -29,6 +29,9 @@ STATES = {
     # like Sta2, but the local user answers whatever request gets indicated the way AssociationAcceptor.accept does:
     # with an A-ASSOCIATE-AC that repeats the peer's titles, application context and user information
     'Sta2-accepting': ('acceptor', [], False),
+    # ... and then serves: a C-ECHO-RQ follows, which the local user answers with a C-ECHO-RSP that the library
+    # fragments for the maximum length negotiated from the peer's (possibly absurd) request
+    'Sta2-serving': ('acceptor', [], False),
     'Sta3': ('acceptor', [B(convs.RQ_SPEC)], True),
     'Sta5': ('requestor', [U(convs.RQ_SPEC)], True),
     'Sta6-acc': ('acceptor', [B(convs.RQ_SPEC), U(convs.AC_SPEC)], True),
@@ -51,7 +54,7 @@ STATES = {
     'Sta12': ('acceptor', [B(convs.RQ_SPEC), U(convs.AC_SPEC), U(convs.REL_RQ), B(convs.REL_RQ), B(convs.REL_RP)], True),
 }
 STATE_NAMES = sorted(STATES)
-EXPECT_STATE = {'Sta2': 2, 'Sta2-accepting': 2, 'Sta3': 3, 'Sta5': 5, 'Sta6-acc': 6, 'Sta6-req': 6, 'Sta7': 7, 'Sta8': 8, 'Sta13': 13,
+EXPECT_STATE = {'Sta2': 2, 'Sta2-accepting': 2, 'Sta2-serving': 2, 'Sta3': 3, 'Sta5': 5, 'Sta6-acc': 6, 'Sta6-req': 6, 'Sta7': 7, 'Sta8': 8, 'Sta13': 13,
                 'Sta6-midmsg': 6, 'Sta6-cmd-file': 6, 'Sta6-data-file': 6, 'Sta6-cmd-mem': 6, 'Sta6-data-mem': 6, 'Sta9': 9, 'Sta10': 10, 'Sta11': 11, 'Sta12': 12}
 
 
@@ -76,6 +79,31 @@ def accept_if_indicated(sim):
     items += [i for i in rq.variable_items if isinstance(i, pdu.UserInformationItem)][:1]
     return pdu.AAssociateAcPDU(called_ae_title=rq.called_ae_title, calling_ae_title=rq.calling_ae_title,
                                variable_items=items)
+
+
+def answer_echo(sim):
+    """What verification_scp + Association.send do for the last indicated C-ECHO-RQ: a C-ECHO-RSP handed to the
+    provider as the library's own fragment generator, for the maximum length AssociationAcceptor.accept arrives at."""
+    from pynetdicom2 import dimsemessages
+    inds = sim.indications()
+    rqs = [i for i in inds if getattr(i, 'pdu_type', None) == 1]
+    echoes = [i for i in inds if isinstance(i, tuple) and getattr(i[0], 'command_field', None) == 0x0030]
+    if sim.state() != 6 or not rqs or not echoes:
+        return None
+    peer_max = None
+    for item in rqs[-1].variable_items:
+        for sub in getattr(item, 'user_data', []) or []:
+            if getattr(sub, 'item_type', None) == 0x51 and peer_max is None:
+                peer_max = sub.maximum_length_received
+    own = 65536
+    limit = peer_max if peer_max and own > peer_max else own
+    msg, pc_id = echoes[-1]
+    rsp = dimsemessages.CEchoRSPMessage()
+    rsp.message_id_being_responded_to = msg.message_id
+    rsp.sop_class_uid = msg.sop_class_uid
+    rsp.status = 0
+    rsp.set_length()
+    return rsp.encode(pc_id, limit)
 
 
 def segment(stream, mode):
@@ -104,8 +132,11 @@ def run_stream(state, stream, mode=0, file_backed=True):
     segs = segment(stream, mode)
     for i, sg in enumerate(segs):
         actions.append({'k': 'seg', 'data': sg, 'eager': i > 0})
-    if state == 'Sta2-accepting':
+    if state in ('Sta2-accepting', 'Sta2-serving'):
         actions.append({'k': 'user', 'fn': accept_if_indicated})
+    if state == 'Sta2-serving':
+        actions.append({'k': 'seg', 'data': refpdu.enc_pdu(convs.echo_rq(1)), 'eager': False})
+        actions.append({'k': 'user', 'fn': answer_echo})
     actions += [{'k': 'close', 'eager': False}, {'k': 'tick', 'dt': 11.5}, {'k': 'tick', 'dt': 11.5}]
     kw = {}
     if file_backed:
@@ -151,7 +182,7 @@ def run_stream(state, stream, mode=0, file_backed=True):
                                       (mutate.invalid_pdata(frames[0]) and state != 'Sta13'))
     if hostile_first:
         # PDUs written after the prefix
-        npre = {'Sta2': 0, 'Sta2-accepting': 0, 'Sta3': 0, 'Sta5': 1, 'Sta6-acc': 1, 'Sta6-req': 1, 'Sta7': 2, 'Sta8': 1, 'Sta13': 2,
+        npre = {'Sta2': 0, 'Sta2-accepting': 0, 'Sta2-serving': 0, 'Sta3': 0, 'Sta5': 1, 'Sta6-acc': 1, 'Sta6-req': 1, 'Sta7': 2, 'Sta8': 1, 'Sta13': 2,
                 'Sta6-midmsg': 1, 'Sta6-cmd-file': 1, 'Sta6-data-file': 1, 'Sta6-cmd-mem': 1, 'Sta6-data-mem': 1, 'Sta9': 2, 'Sta10': 2, 'Sta11': 3, 'Sta12': 2}[state]
         after = pdus[npre:]
         if not after or after[0]['t'] != 7:
